@@ -17,6 +17,7 @@ extern "C" void harness_main()
   uint32_t a = symx_u16("a"), b = symx_u8("b"), c = symx_u8("c");
   sprintf(prog, PROGRAM_FMT, a, b, c, a);
   symx_file_put("in.asm", prog, strlen(prog));
+  { uint8_t blob[3] = { (uint8_t)b, (uint8_t)c, 0x55 }; symx_file_put("blob.bin", blob, 3); }   // for programs that use .binfile
   symx_on_exit(on_exit_hook);
   static char a0[] = "naken_asm", a1[] = "-l", a2[] = "-type", a3[] = "bin", a4[] = "-o", a5[] = "out.bin", a6[] = "in.asm";
   char *argv[8] = { a0, a1, a2, a3, a4, a5, a6, 0 };
